@@ -299,8 +299,13 @@ def run(ctx):
             history_block(ctx, rng, st, sources, mode, iset, {}, other=other)
             # the same grid as a cube package with single-precision tables (memory-mapped by default)
             d_v2 = ctx.newdir('c11v2')
+            # (the cube itself is tabulated at the band wavelengths and holds the same values, so that a band can be given to the fitter
+            #  by name or as a wavelength)
+            ow_ = np.argsort(st['wav'])
             gen.write_grid_v2(d_v2, st['names'], st['bn'], st['wav'], st['conv'], apertures=st['aps'],
-                              aperture_dependent=(mode == '3d'), logd_step=0.1, fmt='E')
+                              aperture_dependent=(mode == '3d'), logd_step=0.1, fmt='E',
+                              cube_wav=np.asarray(st['wav'], float)[ow_], cube=np.asarray(st['conv'], float)[:, :, ow_],
+                              cube_unc=np.asarray(st['conv'], float)[:, :, ow_] * 0.01)
             st_v2 = dict(st, dir=d_v2)
             ctx.regime('history:v2-memmap')
             history_block(ctx, rng, st_v2, sources, mode, iset, {}, other=other, tag='v2-memmap')
@@ -310,7 +315,9 @@ def run(ctx):
             live = []
             v, f, e, cond, wsum = sources[0]
             for p in [list(range(nb))] + [list(rng.permutation(nb)) for _ in range(3)]:
-                fp = gen.make_fitter([st['bn'][i] for i in p], st['theta'][p], d_v2, st['law'], (-5.0, 40.0), st['dr'])
+                # every other band is given as its wavelength (in micron / nm) instead of its name: a list mixing the two kinds, in any order
+                mixed_ = [st['bn'][i] if i % 2 == 0 else (float(st['wav'][i]) * u.micron).to([u.micron, u.nm][(i // 2) % 2]) for i in p]
+                fp = gen.make_fitter(mixed_, st['theta'][p], d_v2, st['law'], (-5.0, 40.0), st['dr'])
                 live.append((p, fp, probe.canon_info(fp.fit(gen.build_source('s', v[p], f[p], e[p])), with_source=False)))
             # ... and they must agree with each other (filter permutation on the cube/memory-mapped package)
             r_first = by_name(live[0][1].fit(gen.build_source('s', v, f, e)))
@@ -323,8 +330,11 @@ def run(ctx):
             order2 = list(rng.permutation(len(st['names'])))
             d_v2p = ctx.newdir('c11v2p')
             gen.write_grid_v2(d_v2p, [st['names'][i] for i in order2], st['bn'], st['wav'], st['conv'][order2], apertures=st['aps'],
-                              aperture_dependent=(mode == '3d'), logd_step=0.1, fmt='E')
-            fpm = gen.make_fitter(st['bn'], st['theta'], d_v2p, st['law'], (-5.0, 40.0), st['dr'])
+                              aperture_dependent=(mode == '3d'), logd_step=0.1, fmt='E',
+                              cube_wav=np.asarray(st['wav'], float)[ow_], cube=np.asarray(st['conv'], float)[order2][:, :, ow_],
+                              cube_unc=np.asarray(st['conv'], float)[order2][:, :, ow_] * 0.01)
+            mixed0_ = [st['bn'][i] if i % 2 == 0 else (float(st['wav'][i]) * u.micron).to([u.micron, u.nm][(i // 2) % 2]) for i in range(nb)]
+            fpm = gen.make_fitter(mixed0_, st['theta'], d_v2p, st['law'], (-5.0, 40.0), st['dr'])
             r_perm = by_name(fpm.fit(gen.build_source('s', v, f, e)))
             compare(ctx, 'model-permutation-changes-fit', 'permuting the models inside the package changed a model\'s fit (cube package, memory-mapped)',
                     r_first, r_perm, max(cond, 1e-3), wsum, dict(mode=mode, order=order2, package='v2-memmap'))
